@@ -298,6 +298,13 @@ pub fn shrink(world: &World, t: &Trace, f: &Fault, v: &Violation) -> (Trace, Fau
                     }
                 }
             }
+            Fault::TransientAt(c) => {
+                for x in 0..c {
+                    if sh.attempt(sh.best.0.clone(), Fault::TransientAt(x)) {
+                        break;
+                    }
+                }
+            }
             Fault::BitFlip(p) => {
                 for x in 0..p {
                     if sh.attempt(sh.best.0.clone(), Fault::BitFlip(x)) {
